@@ -19,6 +19,8 @@ use vp_engine::{Isolation, Outcome, Property, Tier, Verdict};
 #[derive(Clone, Debug, Serialize, Deserialize, PartialEq)]
 enum Step {
     Offer { p: u8, n: u8 },
+    /// every producer offers 50-350 lines in a tight loop, all released at the same instant
+    Burst { n: u8 },
     CloseGate,
     OpenGate,
     /// wait until every outstanding offer returned and the worker went idle
@@ -94,6 +96,7 @@ impl Drop for Scripted {
 
 enum Cmd {
     Offer(Vec<Vec<u8>>),
+    Burst(Vec<Vec<u8>>, Arc<std::sync::Barrier>),
     Stop,
 }
 struct Producer {
@@ -164,6 +167,17 @@ fn run_case(case: &Case) -> Outcome {
                 while let Ok(cmd) = rx.recv() {
                     match cmd {
                         Cmd::Stop => break,
+                        Cmd::Burst(lines, barrier) => {
+                            barrier.wait();
+                            let mut oks = Vec::with_capacity(lines.len());
+                            for l in &lines {
+                                oks.push(w.write_all(l).is_ok());
+                            }
+                            r2.lock().unwrap().extend(lines.into_iter().zip(oks));
+                            let (m, cv) = &*p2;
+                            *m.lock().unwrap() -= 1;
+                            cv.notify_all();
+                        }
                         Cmd::Offer(lines) => {
                             for l in lines {
                                 let ok = w.write_all(&l).is_ok();
@@ -193,6 +207,7 @@ fn run_case(case: &Case) -> Outcome {
     let mut gate_closed_with_offers = false;
     let mut backlog_at_drop = false;
     let mut gate = true;
+    let mut bursts = 0usize;
     let mut drop_took = Duration::ZERO;
     let inconclusive = |why: &str| Outcome { verdict: Verdict::Inconclusive(why.to_string()), nontrivial: false, classes: vec![], excluded_known: 0 };
 
@@ -225,6 +240,34 @@ fn run_case(case: &Case) -> Outcome {
                     // lossy offers never block; with the gate open the worker keeps draining
                     if !wait_idle(&producers[p..=p], &sh, Duration::from_secs(10)) && guard.is_some() {
                         return inconclusive("producer did not finish within 10 s");
+                    }
+                }
+            }
+            Step::Burst { n } => {
+                let n = 50 + (n as usize % 4) * 100;
+                let barrier = Arc::new(std::sync::Barrier::new(np));
+                for p in 0..np {
+                    let lines: Vec<Vec<u8>> = (0..n)
+                        .map(|_| {
+                            serial[p] += 1;
+                            format!("p{p}-{:04}{}\n", serial[p], "x".repeat(serial[p] % 3)).into_bytes()
+                        })
+                        .collect();
+                    if guard.is_some() {
+                        offered_before_drop[p].extend(lines.iter().cloned());
+                        if !gate {
+                            gate_closed_with_offers = true;
+                        }
+                    } else {
+                        offered_after_drop += lines.len();
+                    }
+                    *producers[p].pending.0.lock().unwrap() += 1;
+                    let _ = producers[p].tx.send(Cmd::Burst(lines, barrier.clone()));
+                }
+                bursts += 1;
+                if case.lossy || gate {
+                    if !wait_idle(&producers, &sh, Duration::from_secs(10)) && guard.is_some() {
+                        return inconclusive("producers did not finish a burst within 10 s");
                     }
                 }
             }
@@ -372,6 +415,9 @@ fn run_case(case: &Case) -> Outcome {
     if dropped > 0 {
         classes.push("lines_dropped_lossy".into());
     }
+    if bursts > 0 && np > 1 {
+        classes.push(if dropped > 0 { "simultaneous_burst_with_drops".into() } else { "simultaneous_burst".into() });
+    }
     if offered_after_drop > 0 {
         classes.push("offers_after_guard_drop".into());
     }
@@ -394,6 +440,7 @@ impl Property for C15 {
     fn strategy(&self, tier: Tier) -> BoxedStrategy<Case> {
         let step = prop_oneof![
             8 => (0u8..4, 0u8..6).prop_map(|(p, n)| Step::Offer { p, n }),
+            1 => (0u8..4).prop_map(|n| Step::Burst { n }),
             2 => Just(Step::CloseGate),
             2 => Just(Step::OpenGate),
             1 => Just(Step::Settle),
@@ -408,7 +455,7 @@ impl Property for C15 {
         run_case(case)
     }
     fn rule(&self) -> String {
-        "case = capacity 1-8 x lossy|non-lossy x 1-4 producer threads x <=12 (thorough <=24) steps {Offer(p, 1-6 unique lines), CloseGate (underlying write blocks), OpenGate, Settle, DropGuard (appended if absent; producers may offer afterwards)} x fault script (subset of the first 30 write attempts and the first 12 flushes fail). non-trivial: a fault was injected, or the guard was dropped with a backlog, or lines were offered while the writer was stalled and (lines were dropped | mode is non-lossy); distinct by case".into()
+        "case = capacity 1-8 x lossy|non-lossy x 1-4 producer threads x <=12 (thorough <=24) steps {Offer(p, 1-6 unique lines), Burst (every producer offers 50-350 lines in a tight loop, all released by a barrier), CloseGate (underlying write blocks), OpenGate, Settle, DropGuard (appended if absent; producers may offer afterwards)} x fault script (subset of the first 30 write attempts and the first 12 flushes fail). non-trivial: a fault was injected, or the guard was dropped with a backlog, or lines were offered while the writer was stalled and (lines were dropped | mode is non-lossy); distinct by case".into()
     }
     fn assumptions(&self) -> Vec<String> {
         vec![
